@@ -416,7 +416,9 @@ package datalog
 //@ loop 0 invariant factsWF(*s) && len(*s) >= old(len(*s)) && (forall j int :: { (*s)[j] } 0 <= j && j < old(len(*s)) ==> (*s)[j] == old((*s)[j]))
 //@ loop 0 invariant (arr(*s) == old(arr(*s)) && off(*s) == old(off(*s)) && cap(*s) == old(cap(*s))) || fresh(arr(*s))
 //@ loop 0 invariant len(*s) == old(len(*s)) ==> (forall k int :: { facts[k] } 0 <= k && k < #i ==> old(factIn(now(facts[k].Predicate), *s)))
+//@ loop 0 invariant from_arg: forall j int :: { (*s)[j] } old(len(*s)) <= j && j < len(*s) ==> (exists m int :: { facts[m] } 0 <= m && m < #i && (*s)[j] == facts[m])
 //@ ensures wf: factsWF(*s)
+//@ ensures from_argument[C05]: forall j int :: { (*s)[j] } old(len(*s)) <= j && j < len(*s) ==> (exists m int :: { facts[m] } 0 <= m && m < len(facts) && (*s)[j] == facts[m])
 //@ ensures prefix_kept: len(*s) >= old(len(*s)) && (forall j int :: { (*s)[j] } 0 <= j && j < old(len(*s)) ==> (*s)[j] == old((*s)[j]))
 //@ ensures no_growth_means_subset: len(*s) == old(len(*s)) ==> (forall k int :: { facts[k] } 0 <= k && k < len(facts) ==> old(factIn(now(facts[k].Predicate), *s)))
 //@ ensures same_or_fresh_array: (arr(*s) == old(arr(*s)) && off(*s) == old(off(*s)) && cap(*s) == old(cap(*s))) || fresh(arr(*s))
@@ -580,11 +582,17 @@ package datalog
 //@ loop 2 invariant table: tableGrown(*syms, old(*syms))
 //@ loop 2 invariant apart: arr(*facts) != arr(*newFacts) || cap(*newFacts) == 0
 //@ loop 2 invariant arr: (arr(*newFacts) == pre(arr(*newFacts)) && off(*newFacts) == pre(off(*newFacts)) && cap(*newFacts) == pre(cap(*newFacts)) && len(*newFacts) >= pre(len(*newFacts))) || freshInLoop(arr(*newFacts))
+//@ loop 2 invariant heads[C05]: forall k int :: { (*newFacts)[k] } old(len(*newFacts)) <= k && k < len(*newFacts) ==> headInstance((*newFacts)[k], r.Head)
+//@ loop 2 invariant kept: len(*newFacts) >= old(len(*newFacts)) && (forall j int :: { (*newFacts)[j] } 0 <= j && j < old(len(*newFacts)) ==> (*newFacts)[j] == old((*newFacts)[j]))
+//@ loop 3 invariant inst[C05]: predicate.Name == r.Head.Name && (forall q int :: { predicate.Terms[q] } 0 <= q && q < len(predicate.Terms) ==> ((!(r.Head.Terms[q] is Variable) || q >= #i) ==> predicate.Terms[q] == r.Head.Terms[q]))
+//@ loop 3 invariant heads3[C05]: forall k int :: { (*newFacts)[k] } old(len(*newFacts)) <= k && k < len(*newFacts) ==> headInstance((*newFacts)[k], r.Head)
 //@ loop 3 invariant factsWF(*newFacts) && factsWF(*facts) && len(predicate.Terms) == len(r.Head.Terms) && fresh(arr(predicate.Terms)) && (forall q int :: { predicate.Terms[q] } 0 <= q && q < len(predicate.Terms) ==> termWF(predicate.Terms[q]))
 //@ ensures wf: factsWF(*newFacts) && factsWF(*facts)
 //@ ensures same_or_fresh_array: (arr(*newFacts) == old(arr(*newFacts)) && off(*newFacts) == old(off(*newFacts)) && cap(*newFacts) == old(cap(*newFacts)) && len(*newFacts) >= old(len(*newFacts))) || fresh(arr(*newFacts))
 //@ ensures source_untouched: *facts == old(*facts)
 //@ ensures table: tableGrown(*syms, old(*syms))
+//@ ensures prefix_kept[C05]: len(*newFacts) >= old(len(*newFacts)) && (forall j int :: { (*newFacts)[j] } 0 <= j && j < old(len(*newFacts)) ==> (*newFacts)[j] == old((*newFacts)[j]))
+//@ ensures derived_are_head_instances[C05]: forall k int :: { (*newFacts)[k] } old(len(*newFacts)) <= k && k < len(*newFacts) ==> headInstance((*newFacts)[k], r.Head)
 
 // ---------------------------------------------------------------------------
 // the fixpoint loop runs on its own goroutine; World.Run waits for its verdict
@@ -601,11 +609,15 @@ package datalog
 //@ chan done yields x: tableGrown(*syms, old(*syms))
 //@ chan done yields x: ((arr(*w.facts) == old(arr(*w.facts)) && off(*w.facts) == old(off(*w.facts)) && cap(*w.facts) == old(cap(*w.facts)) && len(*w.facts) >= old(len(*w.facts))) || fresh(arr(*w.facts)))
 //@ chan done sends x: x == nil ==> newCount == prevCount
+//@ chan done yields x: grownByRules(*w.facts, old(*w.facts), w.rules)
 //@ loop 0 modifies *w.facts, spare(*w.facts), *syms, spare(*syms)
 //@ loop 1 modifies newFacts, spare(newFacts), *syms, spare(*syms)
 //@ loop 0 invariant !sentFinal(done) && sentCount(done) == 0 && factsWF(*w.facts) && tableGrownInLoop(*syms, pre(*syms))
 //@ loop 0 invariant grown: tableGrown(*syms, old(*syms)) && ((arr(*w.facts) == old(arr(*w.facts)) && off(*w.facts) == old(off(*w.facts)) && cap(*w.facts) == old(cap(*w.facts)) && len(*w.facts) >= old(len(*w.facts))) || fresh(arr(*w.facts)))
 //@ loop 0 invariant (arr(*w.facts) == pre(arr(*w.facts)) && off(*w.facts) == pre(off(*w.facts)) && cap(*w.facts) == pre(cap(*w.facts)) && len(*w.facts) >= pre(len(*w.facts))) || freshInLoop(arr(*w.facts))
+//@ loop 0 invariant sound[C05]: grownByRules(*w.facts, old(*w.facts), w.rules)
+//@ loop 1 invariant sound[C05]: grownByRules(*w.facts, old(*w.facts), w.rules)
+//@ loop 1 invariant new_sound[C05]: forall k int :: { newFacts[k] } 0 <= k && k < len(newFacts) ==> derivable(newFacts[k], w.rules)
 //@ loop 1 invariant !sentFinal(done) && sentCount(done) == 0 && factsWF(*w.facts) && factsWF(newFacts) && tableGrownInLoop(*syms, pre(*syms))
 //@ loop 1 invariant grown: tableGrown(*syms, old(*syms)) && ((arr(*w.facts) == old(arr(*w.facts)) && off(*w.facts) == old(off(*w.facts)) && cap(*w.facts) == old(cap(*w.facts)) && len(*w.facts) >= old(len(*w.facts))) || fresh(arr(*w.facts)))
 //@ loop 1 invariant arr(*w.facts) != arr(newFacts) || cap(newFacts) == 0
@@ -617,6 +629,7 @@ package datalog
 //@ modifies *w.facts, spare(*w.facts), *syms, spare(*syms)
 //@ ensures success_is_within_limits[C11]: err == nil ==> len(*w.facts) < w.runLimits.maxFacts
 //@ ensures facts_wf: err != ErrWorldRunLimitTimeout ==> factsWF(*w.facts)
+//@ ensures only_derived_facts_are_added[C05]: err != ErrWorldRunLimitTimeout ==> grownByRules(*w.facts, old(*w.facts), w.rules)
 //@ ensures grown: err != ErrWorldRunLimitTimeout ==> tableGrown(*syms, old(*syms)) && ((arr(*w.facts) == old(arr(*w.facts)) && off(*w.facts) == old(off(*w.facts)) && cap(*w.facts) == old(cap(*w.facts)) && len(*w.facts) >= old(len(*w.facts))) || fresh(arr(*w.facts)))
 
 //@ func (w *World) QueryRule(rule Rule, syms *SymbolTable) (res *FactSet)
@@ -625,6 +638,7 @@ package datalog
 //@ modifies *syms, spare(*syms)
 //@ ensures res != nil && fresh(res) && factsWF(*res) && *w.facts == old(*w.facts)
 //@ ensures table: tableGrown(*syms, old(*syms))
+//@ ensures answers_are_head_instances[C05 C04]: forall k int :: { (*res)[k] } 0 <= k && k < len(*res) ==> headInstance((*res)[k], rule.Head)
 
 // ---------------------------------------------------------------------------
 // printing (read-only; C10: never panics on decoded content)
@@ -722,6 +736,17 @@ package datalog
 //@ panics if at > len(*t)
 //@ ensures tail: res != nil && fresh(res) && fresh(arr(*res)) && len(*res) == old(len(*t)) - at && (forall j int :: { (*res)[j] } 0 <= j && j < len(*res) ==> (*res)[j] == old((*t)[at + j]))
 //@ ensures head: len(*t) == at && arr(*t) == old(arr(*t)) && off(*t) == old(off(*t)) && cap(*t) == old(cap(*t))
+
+// Index is the panicking variant of Sym (not called by the library itself): it panics
+// exactly when the string is in neither table
+//@ func (t *SymbolTable) Index(s string) (res uint64)
+//@ serves C07 C10 C19
+//@ requires t != nil
+//@ modifies nothing
+//@ panics if (forall j int :: 0 <= j && j < 28 ==> DEFAULT_SYMBOLS[j] != s) && (forall j int :: 0 <= j && j < len(*t) ==> (*t)[j] != s)
+//@ loop 0 invariant forall j int :: 0 <= j && j < #i ==> DEFAULT_SYMBOLS[j] != s
+//@ loop 1 invariant forall j int :: 0 <= j && j < #i ==> (*t)[j] != s
+//@ ensures found: (res < 28 && DEFAULT_SYMBOLS[res] == s) || (1024 <= res && res - 1024 < len(*t) && (*t)[res - 1024] == s)
 
 //@ func (t *SymbolTable) Sym(s string) (res Term)
 //@ serves C07 C10 C19
